@@ -39,14 +39,15 @@ func witnesses(ops hx.Counter, withPoll bool) []Case {
 	tag("gov_dynamic_quorum_gt_one", runQuorumDyn(QuorumDynParams{Seed: 9021, Quorum: "2", NewQuorum: "0.5", Creator: 1, Owners: []int{1}}, ops))
 	// pool drained by an ordinary claim between submission and enactment of a Withdraw proposal
 	tag("spend_withdraw_drained", runWithdraw(WithdrawParams{Seed: 9031, Rate: 10, DepA: 1000, DepB: 0, Amount: 900, NBen: 1, Claim: true, DtClaim: 50}, ops))
+	tag("spend_withdraw_second_denom_beneficiary_removed", runWithdraw(WithdrawParams{Seed: 9032, Rate: 10, DepA: 5000, DepB: 1000, Amount: 900, NBen: 2, Claim: true, DtClaim: 50, ExtraDenom: true, DepositLater: 700, UpdateBens: true}, ops))
 	// Distribution proposal: 1000ukex/s, deposit 5000: dry run after 3 s pays 3000, enactment >= 23 s later needs > 5000
 	tag("spend_distribution_outgrows_pool", runDistribution(DistributionParams{Seed: 9041, Rate: 1000, Deposit: 5000, Weight: "1", Expiry: 1000000, DtSubmit: 3, Dts: []int64{11, 11, 11}}, ops))
 	// time dimension of the same site: dynamic pool with a claim end; submitted before the claim end, the rate is recalculated after it, then enacted: negative duration
-	tag("spend_distribution_negative_duration", runDistribution(DistributionParams{Seed: 9042, Rate: 1, Deposit: 1000000, Weight: "1", Expiry: 1000000, DtSubmit: 3, Dts: []int64{11, 11, 30, 11},
-		Dynamic: true, DynPeriod: 20, ClaimEndRel: 25}, ops))
+	tag("spend_distribution_negative_duration", runDistribution(DistributionParams{Seed: 9042, Rate: 1, Deposit: 1000000, Weight: "1", Expiry: 1000000, DtSubmit: 3, Dts: []int64{11, 11, 11},
+		Dynamic: true, DynPeriod: 5, ClaimEndRel: 10}, ops))
 	tag("spend_distribution_weight_updated_negative", runDistribution(DistributionParams{Seed: 9043, Rate: 1, Deposit: 1000000, Weight: "1", Expiry: 1000000, DtSubmit: 3, Dts: []int64{11, 11, 11}, UpdateWeight: "-1"}, ops))
-	tag("spend_distribution_late_registration_claim_between", runDistribution(DistributionParams{Seed: 9044, Rate: 10, Deposit: 100000, Weight: "2", Expiry: 1000000, DtSubmit: 3, Dts: []int64{11, 11, 11},
-		RegisterLate: true, ClaimBetween: true, DepositLater: 1, ClaimStartRel: 2, ClaimEndRel: 600}, ops))
+	tag("spend_distribution_two_beneficiaries_claim_between", runDistribution(DistributionParams{Seed: 9044, Rate: 10, Deposit: 100000, Weight: "2", Expiry: 1000000, DtSubmit: 3, Dts: []int64{11, 11, 11},
+		SecondBen: true, ClaimBetween: true, DepositLater: 1, ClaimStartRel: 2, ClaimEndRel: 600}, ops))
 	if withPoll {
 		tag("gov_poll_votes_gt_voters", runPoll(PollParams{Seed: 9051, Unassign: true}, ops))
 		tag("gov_poll_honest", runPoll(PollParams{Seed: 9052, Unassign: false}, ops))
